@@ -1,6 +1,6 @@
 (* C18 — Time-unit conversions for kernel and CSPTP interfaces are exact and normalised. *)
 From Coq Require Import ZArith Reals.
-From ST Require Import Base.Ints Base.F64 Model.NtpTime Model.Units Proofs.UnitsProofs Proofs.UnitsFloatProofs.
+From ST Require Import Base.Ints Base.F64 Model.NtpTime Model.Units Model.UnitsOracle Proofs.UnitsProofs Proofs.UnitsFloatProofs.
 Open Scope Z_scope.
 
 (* every int64 nanosecond count splits into (sec, sub-second) with sub-second in [0, 1e9) and sec*1e9 + sub-second = n *)
@@ -36,9 +36,15 @@ Theorem C18_timeinterval : forall i, let d := csptp_dur_of_interval i in d * 655
 Proof. exact interval_drops_subns. Qed.
 Print Assumptions C18_timeinterval.
 
-(* the CSPTP offset and mean-path-delay formulas recover any true offset and symmetric delay exactly *)
+(* the CSPTP offset and mean-path-delay formulas recover any true offset and symmetric delay exactly,
+   for "all offset/delay combinations that do not overflow int64 nanoseconds": every int64
+   subtraction/addition the Go code performs stays in range (csptp_no_overflow: t1-t0, t3-t2, these minus
+   the corrections, their difference and their sum).  The absolute times t0, t2 are arbitrary, so
+   present-day Unix times (1.7 x 10^18 ns > 2^60) are covered. *)
 Theorem C18_csptp_formulas : forall t0 t2 theta delta c1 c3,
-  small t0 -> small t2 -> small theta -> small delta -> small c1 -> small c3 ->
+  in_i64 (theta + delta + c1) /\ in_i64 (- theta + delta + c3) /\
+  in_i64 (theta + delta) /\ in_i64 (- theta + delta) /\
+  in_i64 (2 * theta) /\ in_i64 (2 * delta) ->
   let t1 := t0 + theta + delta + c1 in
   let t3 := t2 - theta + delta + c3 in
   csptp_clock_offset t0 t1 t2 t3 c1 c3 = theta /\
@@ -46,13 +52,93 @@ Theorem C18_csptp_formulas : forall t0 t2 theta delta c1 c3,
 Proof. exact csptp_formulas. Qed.
 Print Assumptions C18_csptp_formulas.
 
+(* in particular for offsets, delays and corrections up to 2^60 ns (36 years) at any time *)
+Theorem C18_csptp_formulas_small : forall t0 t2 theta delta c1 c3,
+  small theta -> small delta -> small c1 -> small c3 ->
+  let t1 := t0 + theta + delta + c1 in
+  let t3 := t2 - theta + delta + c3 in
+  csptp_clock_offset t0 t1 t2 t3 c1 c3 = theta /\
+  csptp_mean_path_delay t0 t1 t2 t3 c1 c3 = delta.
+Proof. intros t0 t2 theta delta c1 c3 A B C D. apply csptp_formulas. apply small_no_overflow; assumption. Qed.
+Print Assumptions C18_csptp_formulas_small.
+
+(* one-way delays d1, d2 with the UTC correction: t1 = t0 + theta + d1 + c1 + utc, t3 = t2 - theta + d2 + c3 - utc *)
 Theorem C18_csptp_delays : forall t0 t2 theta d1 d2 c1 c3 utc,
-  small t0 -> small t2 -> small theta -> small d1 -> small d2 -> small c1 -> small c3 -> small utc ->
+  in_i64 (theta + d1 + c1 + utc) /\ in_i64 (theta + d1 + utc) /\ in_i64 (theta + d1) /\
+  in_i64 (- theta + d2 + c3 - utc) /\ in_i64 (- theta + d2 - utc) /\ in_i64 (- theta + d2) ->
   let t1 := t0 + theta + d1 + c1 + utc in
   let t3 := t2 - theta + d2 + c3 - utc in
   csptp_c2s_delay t0 t1 c1 utc = theta + d1 /\ csptp_s2c_delay t2 t3 c3 utc = - theta + d2.
 Proof. exact csptp_delays. Qed.
 Print Assumptions C18_csptp_delays.
+
+(* the oracles of the case kinds csptp.recover, csptp.recover_delays and csptp.formulas hold for the
+   model on ALL inputs (any times, any int64 or larger values) *)
+Theorem C18_recover_oracle : forall t0 t2 theta delta c1 c3,
+  let t1 := t0 + theta + delta + c1 in
+  let t3 := t2 - theta + delta + c3 in
+  C18_recover_ok theta delta c1 c3 (csptp_clock_offset t0 t1 t2 t3 c1 c3) (csptp_mean_path_delay t0 t1 t2 t3 c1 c3) = true.
+Proof. exact recover_oracle. Qed.
+Print Assumptions C18_recover_oracle.
+
+Theorem C18_delays_oracle : forall t0 t2 theta d1 d2 c1 c3 utc,
+  let t1 := t0 + theta + d1 + c1 + utc in
+  let t3 := t2 - theta + d2 + c3 - utc in
+  C18_delays_ok theta d1 d2 c1 c3 utc (csptp_c2s_delay t0 t1 c1 utc) (csptp_s2c_delay t2 t3 c3 utc) = true.
+Proof. exact delays_oracle. Qed.
+Print Assumptions C18_delays_oracle.
+
+Theorem C18_formulas_oracle : forall t0 t1 t2 t3 c1 c3 utc,
+  C18_formulas_ok t0 t1 t2 t3 c1 c3 utc
+    (csptp_clock_offset t0 t1 t2 t3 c1 c3) (csptp_mean_path_delay t0 t1 t2 t3 c1 c3)
+    (csptp_c2s_delay t0 t1 c1 utc) (csptp_s2c_delay t2 t3 c3 utc) = true.
+Proof. exact formulas_oracle. Qed.
+Print Assumptions C18_formulas_oracle.
+
+(* 2024-06-01T12:00:00Z = 1717243200 s: a server 37 ns ahead, 0.5 ms each way, residence times 3 and 4 ns,
+   reply sent 1.5 ms later; and with a 37 s UTC correction on the one-way delays *)
+Example C18_csptp_2024 :
+  let t0 := 1717243200000000000 in let t2 := t0 + 1500000 in
+  2^60 < t0 /\
+  csptp_clock_offset t0 (t0 + 37 + 500000 + 3) t2 (t2 - 37 + 500000 + 4) 3 4 = 37 /\
+  csptp_mean_path_delay t0 (t0 + 37 + 500000 + 3) t2 (t2 - 37 + 500000 + 4) 3 4 = 500000 /\
+  csptp_c2s_delay t0 (t0 + 37 + 400000 + 3 + 37000000000) 3 37000000000 = 37 + 400000 /\
+  csptp_s2c_delay t2 (t2 - 37 + 600000 + 4 - 37000000000) 4 37000000000 = - 37 + 600000 /\
+  C18_recover_range 37 500000 3 4 = true /\ C18_delays_range 37 400000 600000 3 4 37000000000 = true.
+Proof. cbv zeta. repeat split; vm_compute; reflexivity. Qed.
+
+(* ---- "frequency <-> scaled-ppm conversion round-trips to within one unit in the last place" ----
+   for all scaled-ppm values of the kernel's range |x| <= 32768000 (500 ppm):
+   ScaledPPMFromFreq(FreqFromScaledPPM(x)) = int64(RN(RN(x / 65536e6) * 65536e6)); the two roundings
+   move the product by less than 1/2 and int64() truncates toward zero, so the result is x or the
+   neighbour of x toward zero, never the one away from zero.  It is NOT always x (Example below). *)
+Theorem C18_freq_roundtrip : forall x, Z.abs x <= 32768000 ->
+  let r := scaled_ppm_from_freq (freq_from_scaled_ppm x) in
+  (0 <= x -> x - 1 <= r <= x) /\ (x <= 0 -> x <= r <= x + 1).
+Proof. exact freq_roundtrip. Qed.
+Print Assumptions C18_freq_roundtrip.
+
+Theorem C18_freq_roundtrip_oracle : forall x, C18_freq_ok x (scaled_ppm_from_freq (freq_from_scaled_ppm x)) = true.
+Proof. exact freq_roundtrip_oracle. Qed.
+Print Assumptions C18_freq_roundtrip_oracle.
+
+(* 1 104 656 of the 65 536 001 values of the range lose one unit, the smallest is 249 *)
+Example C18_freq_roundtrip_sharp :
+  scaled_ppm_from_freq (freq_from_scaled_ppm 249) = 248 /\ scaled_ppm_from_freq (freq_from_scaled_ppm (-249)) = -248 /\
+  scaled_ppm_from_freq (freq_from_scaled_ppm 250) = 250 /\ scaled_ppm_from_freq (freq_from_scaled_ppm 32768000) = 32768000.
+Proof. repeat split; vm_compute; reflexivity. Qed.
+
+(* each direction on its own (oracles of the kinds units.ppm_of_freq and units.freq_of_ppm):
+   ScaledPPMFromFreq f on EVERY float64 f: same sign, |result| = |f| x 65536e6 up to 2^-52 and the truncation
+   (for |f| x 65536e6 < 2^62; NaN, infinities and larger values are unconstrained);
+   FreqFromScaledPPM x on EVERY int64 x: a finite float of the sign of x with g x 65536e6 = x up to 2^-51 *)
+Theorem C18_ppm_of_freq_oracle : forall f : f64, C18_ppm_of_freq_ok f (scaled_ppm_from_freq f) = true.
+Proof. exact ppm_of_freq_oracle. Qed.
+Print Assumptions C18_ppm_of_freq_oracle.
+
+Theorem C18_freq_of_ppm_oracle : forall x, in_i64 x -> C18_freq_of_ppm_ok x (freq_from_scaled_ppm x) = true.
+Proof. exact freq_of_ppm_oracle. Qed.
+Print Assumptions C18_freq_of_ppm_oracle.
 
 (* ---- "the drift allowance is proportional to the interval" (clocks.SystemClock.Drift) ----
 
